@@ -1,7 +1,7 @@
 """C17 - path strings are honoured component by component or rejected."""
 import itertools
 
-from ..core import attempt, V, R
+from ..core import attempt, V, R, isolated
 from ..ref import hd
 from .. import hdscen
 
@@ -175,8 +175,55 @@ def chk_deep(lst):
     return ("violation" if viols else oc), viols
 
 
+HIST_ALPHA = ["m/0/1/2/3/4", "m/0/1/2/3/4/5", "m/0/1/2/3/4/6", "m/0/1/2/3/4/x", "m/0/1/2/3/4//6", "m/0/1/2/3/4/-1",
+              "m/0/1/2/3", "m/0/1'/2", "m/0/1/2/3/4/5/6", "m/0/1/2/3/5", "m/0/1/2/3/4/5'", "M/0/1/2/3/4/5"]
+
+
+class ByPathHistories:
+    """sequences of by_path calls on ONE wallet object; every call must answer as a fresh wallet would.
+    canon = the history itself (no merging: hidden per-wallet caches cannot be observed, so nothing is assumed equal)."""
+
+    def ops(self, hist):
+        return HIST_ALPHA
+
+    def run(self, hist):
+        w = wallet(False)
+        res = None
+        for p in hist:
+            res = attempt(lambda: w.by_path(p))
+        viols, label = [], "init"
+        if hist:
+            p = hist[-1]
+            st, n = res
+            cls = classify_malformed(p)
+            if cls is not None:
+                label = "refused-malformed" if st != "ok" else "violation"
+                if st == "ok":
+                    viols.append(V("%s:by_path:history:%s:derived-other-key" % (P, cls),
+                                   "after by_path calls %r on the same wallet, by_path(%r) returned %s instead of raising" % (hist[:-1], p, n)))
+            else:
+                lst = hdscen.parse_path(p)
+                exp = hdscen.canon_ref_node(hd.derive(hdscen.ref_root(MASTER), lst))
+                if st != "ok":
+                    label = "refused-deep" if len(lst) > 5 else "violation"
+                    if len(lst) <= 5:
+                        viols.append(V(P + ":by_path:history:levels<=5:refused", "after %r, by_path(%r) raised %s" % (hist[:-1], p, n)))
+                elif hdscen.canon_impl_node(n) != exp:
+                    label = "violation"
+                    viols.append(V(P + ":by_path:history:wrong-node", "after by_path calls %r on the same wallet, by_path(%r) returned %s (depth %d)" % (
+                        hist[:-1], p, n, n.depth), hdscen.canon_impl_node(n), exp))
+                else:
+                    label = "node-ok"
+        return {"canon": hist, "viols": viols, "label": label}
+
+
 def execute(case):
-    k = case["k"]
+    k = case.get("k")
+    if "hist" in case:
+        r = isolated(ByPathHistories().run, case["hist"])
+        for v in r["viols"]:
+            v["case"] = case
+        return R(r["label"], viols=r["viols"])
     outcomes, viols, n = {}, [], 0
 
     def acc(res, single):
@@ -247,4 +294,6 @@ def run(ctx):
             sel = [allp[0], allp[-1], allp[rr.randrange(len(allp))]]
         cases += [{"k": "deep", "lst": list(p)} for p in sel]
     ctx.product("deep-paths", cases, execute)
+    from ..bfs import bfs
+    bfs(ctx, "by_path-histories-on-one-wallet", ByPathHistories(), 3 if ctx.thorough else 2)
     return {}
